@@ -547,7 +547,9 @@ def r6(ctx: Ctx, m):
         a = x.args[0] if x.args else None
         while isinstance(a, ast.Call) and unparse(a.func) in ('list', 'tuple') and len(a.args) == 1:
           a = a.args[0]
-        whole = isinstance(a, ast.Name) and a.id == va and x.func.attr == 'extend'
+        va_names = {va} | {y.targets[0].id for y in walk_no_nested(se.node) if isinstance(y, ast.Assign) and len(y.targets) == 1
+                           and isinstance(y.targets[0], ast.Name) and isinstance(y.value, ast.Name) and y.value.id == va}
+        whole = isinstance(a, ast.Name) and a.id in va_names and x.func.attr == 'extend'
         if whole:
           ctx.ok(rule, se, f'_returned.extend({va}) records every value as given', x)
         else:
@@ -1449,6 +1451,8 @@ from mlmverif.selfcheck import B, OK  # noqa: E402
 
 _F = 'utils/iter_utils.py'
 VARIANTS = [
+    OK('returned-values-through-a-local', 'utils/iter_utils.py',
+       "      self._returned.extend(values)\n", "      ended_with = values\n      self._returned.extend(ended_with)\n"),
     OK('put-through-a-local', 'utils/iter_utils.py',
        "          self._put_nowait(value)\n", "          item = value\n          self._put_nowait(item)\n"),
     OK('skip-wrapper-yields-through-a-local', 'utils/iter_utils.py',
